@@ -120,4 +120,23 @@ PROPS.update({
                   "signing needs an unlocked wallet; in every reachable locked state no keystore holds private keys, key-decrypting "
                   "keys or a passphrase hash (the full-strength theorem, provable after the fix of F3). The harness dumps which secret "
                   "fields are live in the real instance after every operation."),
+    "C01": wallet("C01", "Unbounded proof (Lean 4) on the wallet model: export writes the keystore's durable snapshot; importing an untampered "
+                  "file (or one altered only in fields import ignores) with the passphrase in force at export, into any wallet not holding "
+                  "that keystore, restores the same identity, remark and counters (= the same keys at the same indices; one identity and "
+                  "path yield one key by C18), and after unlock every restored key signs; wrong passphrase, already-present keystore and "
+                  "corruption of an authenticated field are rejected with the store unchanged. The full-strength 'every single-field "
+                  "corruption is rejected' is false of the code (kernel-checked counterexample): remark, counters and account are not "
+                  "authenticated = known findings. The harness exports/deletes/imports with every kind of tampering and compares "
+                  "addresses and public keys index by index on the real code."),
+    "C05": wallet("C05", "Unbounded proof (Lean 4): signing succeeds exactly for keys that were issued (on either branch, locked or unlocked) "
+                  "and are still managed, while the wallet is unlocked, for a 32-byte digest; foreign keys and a locked wallet are refused; "
+                  "issued keys stay issued across restart; the byte-level binding (the private key derived for a path is the one whose "
+                  "public half was issued for that path) is C18's neuter/child commutation theorem. The harness signs with every key ever "
+                  "issued and verifies each signature with pocec directly.",
+                  {"props": ["MassVerif.Props.C05"]}),
+    "C06": wallet("C06", "Unbounded proof (Lean 4): every plot-key request returns the owning keystore's current external counter as ordinal and "
+                  "advances it by one (consecutive, no gaps, no reuse while the keystore exists); a later ordinal lookup returns the index the "
+                  "key was issued with, also after restart (coherence, C02). Freshness across delete + re-create is false of the code "
+                  "(kernel-checked counterexample: the counter travels with an older file) = known finding. The harness keeps every key ever "
+                  "returned and its ordinal and re-queries them."),
 })
